@@ -11,6 +11,8 @@ Layout independence as a whole (flush/rotate histories, dictionary vs plain enco
 the end-to-end differential (same events under different layouts vs the layout-free specification).
 -/
 import SigModel.Gen.Range
+import SigModel.Lemmas.C03B
+import SigModel.Lemmas.C03Bdict
 
 namespace SigModel.Props.C03
 open SigModel.Gen
@@ -68,5 +70,307 @@ theorem ne_prune_unsound_with_absent :
   have := h 9 9 9 [some 9, none] (by simp) (by simp)
   revert this
   decide
+
+end SigModel.Props.C03
+
+/-!
+## C03 kernel slice "bloom": the BLOOM skip rule and the DICTIONARY search path (Model/Bloom.lean)
+
+The block bloom of a column holds, per stored string value, the keys `addedKeys v` (full value, pieces between single
+spaces, ASCII-lower-cased copies).  A query probes the keys of `MatchFilter.probe` / `exprProbe`; the block is dropped
+when the check (`passRotated` for rotated segments, `passUnrotated` for open ones) fails.  Soundness = a block that
+holds a record of the answer is never dropped, for EVERY filter that behaves like a bloom (`BloomLike` holding at
+least the added keys).  Decided here:
+* single-token words (And/Or filters of any number of words), whole-value phrases, string equality: SOUND;
+* a phrase of several tokens strictly inside a longer value: UNSOUND (`bloom_prune_phrase_counterexample`; replayed on
+  the engine: `"foo bar"` misses m="x foo bar y" unless another record of the same block holds the phrase as a whole value);
+* the empty phrase on a value ending in a space: UNSOUND (`bloom_prune_empty_needle_counterexample`);
+* negated free text on OPEN segments: UNSOUND (`unrotated_negated_prune_counterexample`: `DoCMICheckForUnrotated` lacks
+  the negate test that `doCmiChecks` has);
+* the dictionary path selects exactly the records the per-record path selects (`dictSearch_eq_perRecord`), for a filter
+  WITH words; a filter without words selects nothing through the dictionary and everything per record.
+-/
+namespace SigModel.Props.C03
+open SigModel.Bloom
+open SigModel.Tlv (Bytes DictRd)
+
+/-- the match filter of a one-word free-text search (what `createMatchFilterCriteria` builds) -/
+def wordFilter (w : Bytes) : MatchFilter :=
+  { words := [w], wordsOrig := [], op := .and, phrase := [], phraseOrig := [], isPhrase := false, negate := false }
+
+/-- the match filter of a quoted phrase (what `createMatchPhraseFilterCriteria` builds) -/
+def phraseFilter (p : Bytes) : MatchFilter :=
+  { words := splitSpace p, wordsOrig := [], op := .and, phrase := p, phraseOrig := [], isPhrase := true, negate := false }
+
+/-- every word is one token: non-empty, no space, and (case-insensitive search) lower-cased as the grammar does -/
+def SingleTokens (ci : Bool) (ws : List Bytes) : Prop :=
+  ∀ w ∈ ws, w ≠ [] ∧ 32 ∉ w ∧ (ci = true → hasUpper w = false)
+
+/-- C03.3 (words, full filter) a block holding a record that satisfies an And/Or filter of single-token words is kept,
+on rotated and on open segments, whichever columns are consulted, for any bloom-like filter. -/
+theorem bloom_prune_sound_words (mf : MatchFilter) (ci : Bool) (v : Bytes) (b : BloomLike) (cols : Cols) (allCols : Bool)
+    (hb : b.holds (addedKeys v)) (hc : some b ∈ cols) (hph : mf.isPhrase = false)
+    (hw : SingleTokens ci mf.words) (h : matchRaw mf ci (.str v) = true) :
+    passRotated allCols cols (mf.probe ci) false = true ∧ passUnrotated cols (mf.probe ci) = true := by
+  -- the probe
+  have hp : mf.probe ci =
+      { keys := (wordsLoop ci (mf.wordsOrig.length == mf.words.length) mf.wordsOrig mf.words 0 ([], [], false)).1,
+        orig := (wordsLoop ci (mf.wordsOrig.length == mf.words.length) mf.wordsOrig mf.words 0 ([], [], false)).2.1,
+        wildcard := (wordsLoop ci (mf.wordsOrig.length == mf.words.length) mf.wordsOrig mf.words 0 ([], [], false)).2.2,
+        op := if (wordsLoop ci (mf.wordsOrig.length == mf.words.length) mf.wordsOrig mf.words 0 ([], [], false)).1.length == 1
+              then .and else mf.op } := by
+    simp [MatchFilter.probe, hph]
+  obtain ⟨hwc, hks⟩ := wordsLoop_spec ci (mf.wordsOrig.length == mf.words.length) mf.wordsOrig mf.words 0 [] [] false
+  generalize hr : wordsLoop ci (mf.wordsOrig.length == mf.words.length) mf.wordsOrig mf.words 0 ([], [], false) = r at hp hwc hks
+  obtain ⟨ks, os, wc⟩ := r
+  simp only at hp hwc hks
+  rw [hp]
+  cases hwcv : wc with
+  | true => simp [passRotated, passUnrotated]
+  | false =>
+    rw [hwcv] at hwc
+    have hnostar : ∀ x ∈ mf.words, hasStar x = false := by
+      have : mf.words.any hasStar = false := by simpa using hwc.symm
+      intro x hx
+      have := List.any_eq_false.1 this x hx
+      simpa using this
+    have hmem : ∀ x, x ∈ ks ↔ x ∈ mf.words := by
+      intro x; rw [hks x]; simp only [List.not_mem_nil, false_or]
+      exact ⟨fun h => h.1, fun h => ⟨h, hnostar x h⟩⟩
+    -- a word found in the value is found in the block
+    have hE : ∀ k ∈ mf.words, subWord ci v k = true →
+        needleInCols cols { keys := ks, orig := os, wildcard := false, op := if ks.length == 1 then Op.and else mf.op } k = true := by
+      intro k hk hsub
+      obtain ⟨h1, h2, h3⟩ := hw k hk
+      exact needleInCols_of_test cols b _ k hc (hb k (key_added_token ci v k h1 h2 h3 hsub))
+    simp only [passRotated, passUnrotated, Bool.false_or, Bool.false_eq_true, if_false]
+    unfold matchRaw at h
+    simp only [hph, Bool.false_eq_true, if_false] at h
+    cases hop : mf.op with
+    | and =>
+      have hall : ∀ k ∈ mf.words, subWord ci v k = true := by
+        by_cases he : mf.words.isEmpty = true
+        · intro k hk; have : mf.words = [] := by simpa using he
+          rw [this] at hk; simp at hk
+        · have he' : mf.words.isEmpty = false := by simpa using he
+          simp only [he', Bool.false_eq_true, if_false, hop, List.all_eq_true] at h
+          exact h
+      have hAll : ks.all (needleInCols cols { keys := ks, orig := os, wildcard := false, op := Op.and }) = true := by
+        rw [List.all_eq_true]; intro k hk
+        have := hE k ((hmem k).1 hk) (hall k ((hmem k).1 hk))
+        simpa [hop] using this
+      simp only [ite_self]
+      rw [forColLoop_and, allColLoop_and]
+      cases allCols <;> simp [hAll]
+    | or =>
+      by_cases he : mf.words.isEmpty = true
+      · have hw0 : mf.words = [] := by simpa using he
+        have hk0 : ks = [] := by
+          cases ks with
+          | nil => rfl
+          | cons a r => have := (hmem a).1 (by simp); rw [hw0] at this; simp at this
+        subst hk0
+        cases allCols <;> simp [forColLoop, allColLoop]
+      · have he' : mf.words.isEmpty = false := by simpa using he
+        simp only [he', Bool.false_eq_true, if_false, hop, List.any_eq_true] at h
+        obtain ⟨w0, hw0, hsub⟩ := h
+        have hw0k : w0 ∈ ks := (hmem w0).2 hw0
+        have hEw := hE w0 hw0 hsub
+        by_cases h1 : (ks.length == 1) = true
+        · -- one key: probed as And; the key is the matching word
+          simp only [h1, if_true] at hEw ⊢
+          have hAll : ks.all (needleInCols cols { keys := ks, orig := os, wildcard := false, op := Op.and }) = true := by
+            rw [List.all_eq_true]; intro k hk
+            have hlen : ks.length = 1 := by simpa using h1
+            match ks, hlen, hk, hw0k with
+            | [a], _, hk, hw0k =>
+              simp at hk hw0k; subst hk; subst hw0k; exact hEw
+          rw [forColLoop_and, allColLoop_and]
+          cases allCols <;> simp [hAll]
+        · have h1' : (ks.length == 1) = false := by simpa using h1
+          simp only [h1', Bool.false_eq_true, if_false, hop] at hEw ⊢
+          have hAny : ks.any (needleInCols cols { keys := ks, orig := os, wildcard := false, op := Op.or }) = true := by
+            rw [List.any_eq_true]; exact ⟨w0, hw0k, hEw⟩
+          rw [forColLoop_or, allColLoop_or_any _ _ _ hAny]
+          cases allCols <;> simp
+
+/-- C03.3 (one word, case-sensitive and case-insensitive) `IsSubWordPresent(v, w)` ⇒ the block is kept -/
+theorem bloom_prune_sound_word (ci : Bool) (v w : Bytes) (b : BloomLike) (cols : Cols) (allCols : Bool)
+    (hb : b.holds (addedKeys v)) (hc : some b ∈ cols)
+    (hne : w ≠ []) (hsp : 32 ∉ w) (hlow : ci = true → hasUpper w = false)
+    (h : subWord ci v w = true) :
+    passRotated allCols cols ((wordFilter w).probe ci) false = true ∧
+    passUnrotated cols ((wordFilter w).probe ci) = true := by
+  apply bloom_prune_sound_words (wordFilter w) ci v b cols allCols hb hc rfl
+  · intro x hx; simp [wordFilter] at hx; subst hx; exact ⟨hne, hsp, hlow⟩
+  · simp [matchRaw, wordFilter, h]
+
+/-- the case-insensitive rule needs the lower-cased needle the query grammar produces: a needle with upper-case bytes
+that differs in case from the stored token is probed as is and missed -/
+theorem bloom_ci_needs_lowered_needle :
+    ¬ (∀ (v w : Bytes) (b : BloomLike), b.holds (addedKeys v) → subWord true v w = true →
+        passRotated true [some b] ((wordFilter w).probe true) false = true) := by
+  intro h
+  -- v = "FOO", w = "Foo"
+  have := h [70, 79, 79] [70, 111, 111] (exact (addedKeys [70, 79, 79])) (exact_holds _) (by decide)
+  revert this; decide
+
+/-- C03.3 (phrase) FULL strength: every phrase found in a stored value keeps the block.  FALSE, see below. -/
+def PhrasePruneSound : Prop :=
+  ∀ (ci : Bool) (v p : Bytes) (b : BloomLike), b.holds (addedKeys v) → (ci = true → hasUpper p = false) →
+    subWord ci v p = true →
+    passRotated true [some b] ((phraseFilter p).probe ci) false = true ∧ passUnrotated [some b] ((phraseFilter p).probe ci) = true
+
+/-- the phrase "foo bar" is found by the record matcher in the value "x foo bar y", but it is probed as ONE key and the
+writer added only the whole value and the single tokens: the block is dropped (rotated and open). -/
+theorem bloom_prune_phrase_counterexample : ¬ PhrasePruneSound := by
+  intro h
+  have := (h false [120, 32, 102, 111, 111, 32, 98, 97, 114, 32, 121] [102, 111, 111, 32, 98, 97, 114]
+    (exact (addedKeys [120, 32, 102, 111, 111, 32, 98, 97, 114, 32, 121])) (exact_holds _) (by simp) (by decide)).1
+  revert this; decide
+
+/-- the EMPTY phrase is "found" by `IsSubWordPresent` after a trailing space ("abc " — the engine answers `""` with such
+events when the micro-index is unavailable), but the empty last piece is not added -/
+theorem bloom_prune_empty_needle_counterexample :
+    ¬ (∀ (v : Bytes) (b : BloomLike), b.holds (addedKeys v) → subWord false v [] = true →
+        passRotated true [some b] ((phraseFilter []).probe false) false = true) := by
+  intro h
+  have := h [97, 98, 99, 32] (exact (addedKeys [97, 98, 99, 32])) (exact_holds _) (by decide)
+  revert this; decide
+
+/-- the phrases the add side covers: one token, or the whole value -/
+def PhraseGuard (v p : Bytes) : Prop := (p ≠ [] ∧ 32 ∉ p) ∨ p.length = v.length
+
+instance (v p : Bytes) : Decidable (PhraseGuard v p) := by unfold PhraseGuard; exact inferInstance
+
+/-- C03.3 (phrase, partial) under the guard the phrase rule is sound — for every phrase filter (And or Or), rotated and open -/
+theorem bloom_prune_phrase_partial (mf : MatchFilter) (ci : Bool) (v : Bytes) (b : BloomLike) (cols : Cols) (allCols : Bool)
+    (hb : b.holds (addedKeys v)) (hc : some b ∈ cols) (hph : mf.isPhrase = true)
+    (hg : PhraseGuard v mf.phrase) (hlow : ci = true → hasUpper mf.phrase = false)
+    (h : subWord ci v mf.phrase = true) :
+    passRotated allCols cols (mf.probe ci) false = true ∧ passUnrotated cols (mf.probe ci) = true := by
+  have hkey : mf.phrase ∈ addedKeys v := by
+    rcases hg with ⟨h1, h2⟩ | h1
+    · exact key_added_token ci v mf.phrase h1 h2 hlow h
+    · exact key_added_whole ci v mf.phrase h1 hlow h
+  by_cases hs : hasStar mf.phrase = true
+  · simp [MatchFilter.probe, hph, hs, passRotated, passUnrotated]
+  · have hs' : hasStar mf.phrase = false := by simpa using hs
+    simp only [MatchFilter.probe, hph, hs', if_true, Bool.false_eq_true, if_false, passRotated, passUnrotated, Bool.false_or]
+    generalize hP : ({ keys := [mf.phrase], orig := if (ci && !mf.phraseOrig.isEmpty) = true then [(mf.phrase, mf.phraseOrig)] else [],
+                       wildcard := false, op := mf.op } : Probe) = P
+    have hE : needleInCols cols P mf.phrase = true := needleInCols_of_test cols b P _ hc (hb _ hkey)
+    cases hop : mf.op with
+    | and =>
+      rw [forColLoop_and, allColLoop_and]
+      cases allCols <;> simp [hE]
+    | or =>
+      rw [forColLoop_or, allColLoop_or_any _ _ _ (by simp [hE])]
+      cases allCols <;> simp
+
+/-- the guard is satisfiable on both sides: "foo" and the whole value in "x foo bar y" -/
+example : PhraseGuard [120, 32, 102, 111, 111, 32, 98, 97, 114, 32, 121] [102, 111, 111] ∧
+    subWord false [120, 32, 102, 111, 111, 32, 98, 97, 114, 32, 121] [102, 111, 111] = true := by decide
+example : PhraseGuard [120, 32, 102, 111, 111] [120, 32, 102, 111, 111] ∧ subWord false [120, 32, 102, 111, 111] [120, 32, 102, 111, 111] = true := by decide
+/-- … and it excludes the counterexample -/
+example : ¬ PhraseGuard [120, 32, 102, 111, 111, 32, 98, 97, 114, 32, 121] [102, 111, 111, 32, 98, 97, 114] := by decide
+/-- the rule is not vacuous: a block without the word IS dropped ("zzz" against a block holding "x foo bar y") -/
+example : passRotated true [some (exact (addedKeys [120, 32, 102, 111, 111, 32, 98, 97, 114, 32, 121]))]
+    ((wordFilter [122, 122, 122]).probe false) false = false := by decide
+
+/-- C03.3 (string equality `col = "value"`) a block holding an equal value (equal up to ASCII case when the comparison
+is case-insensitive) is kept -/
+theorem bloom_prune_sound_eq (ci : Bool) (v val orig : Bytes) (hasOrig : Bool) (b : BloomLike) (cols : Cols) (allCols : Bool)
+    (hb : b.holds (addedKeys v)) (hc : some b ∈ cols) (hlow : ci = true → hasUpper val = false)
+    (h : exprRaw true ci val (.str v) = true) :
+    passRotated allCols cols (exprProbe true (hasStar val) val hasOrig orig ci) false = true ∧
+    passUnrotated cols (exprProbe true (hasStar val) val hasOrig orig ci) = true := by
+  simp only [exprRaw, if_true, Bool.and_eq_true, beq_iff_eq] at h
+  obtain ⟨_, hcs, hcis⟩ := bytesEq_spec ci v val h.2
+  have hkey : val ∈ addedKeys v := by
+    cases ci with
+    | false => rw [← hcs rfl]; exact mem_addedKeys_self v
+    | true =>
+      have hw : toLower val = val := toLower_of_noUpper val (hlow rfl)
+      by_cases hu : hasUpper v = true
+      · rw [← hw, ← hcis rfl]; exact mem_addedKeys_lower_self v hu
+      · have hu' : hasUpper v = false := by simpa using hu
+        rw [← hw, ← hcis rfl, toLower_of_noUpper v hu']; exact mem_addedKeys_self v
+  unfold exprProbe
+  simp only [Bool.not_true, Bool.false_eq_true, if_false]
+  by_cases hs : hasStar val = true
+  · simp [hs, passRotated, passUnrotated]
+  · have hs' : hasStar val = false := by simpa using hs
+    simp only [hs', Bool.false_eq_true, if_false]
+    by_cases he : val.isEmpty = true
+    · cases allCols <;> simp [he, passRotated, passUnrotated, forColLoop, allColLoop]
+    · simp only [he, if_false, passRotated, passUnrotated, Bool.false_or, Bool.false_eq_true]
+      generalize hP : ({ keys := [val], orig := if (ci && hasOrig && !orig.isEmpty) = true then [(val, orig)] else [],
+                         wildcard := false, op := Op.and } : Probe) = P
+      have hE : needleInCols cols P val = true := needleInCols_of_test cols b P _ hc (hb _ hkey)
+      rw [forColLoop_and, allColLoop_and]
+      cases allCols <;> simp [hE]
+
+/-- a record belongs to the answer of a (possibly negated) match filter -/
+def inAnswer (mf : MatchFilter) (ci : Bool) (v : Bytes) : Bool := matchRaw mf ci (.str v) != mf.negate
+
+/-- negated filters: the rotated-segment check never drops a block (`doCmiChecks` tests `NegateMatch`) -/
+theorem bloom_prune_negated_rotated (allCols : Bool) (cols : Cols) (p : Probe) : passRotated allCols cols p true = true := by
+  simp [passRotated]
+
+/-- negated filters on OPEN segments: `DoCMICheckForUnrotated` has no such test; a block none of whose records holds the
+word — every record of it belongs to the answer of `NOT zzz` — is dropped.  Replayed on the engine (plain, non-dictionary
+columns): `NOT zzz` loses the events of such a block while the segment is open and finds them after rotation. -/
+theorem unrotated_negated_prune_counterexample :
+    ¬ (∀ (mf : MatchFilter) (ci : Bool) (v : Bytes) (b : BloomLike), b.holds (addedKeys v) → inAnswer mf ci v = true →
+        passUnrotated [some b] (mf.probe ci) = true) := by
+  intro h
+  -- NOT zzz against a block holding "ccc"
+  have := h { wordFilter [122, 122, 122] with negate := true } false [99, 99, 99] (exact (addedKeys [99, 99, 99]))
+    (exact_holds _) (by decide)
+  revert this; decide
+
+/-- … sound on open segments too when the filter is not negated (the two theorems above give it for words and phrases) -/
+example : inAnswer (wordFilter [99, 99, 99]) false [99, 99, 99] = true := by decide
+
+/-- the in-place variant `addToBlockBloomBothCases` (work buffer = the value; array-dict keys and values): each
+lower-casing overwrites the head of the value, so the final "lower-cased full value" is wrong — for "Foo Bar" the key
+"bar bar" is added instead of "foo bar", which the flush-path variant does add. -/
+theorem inplace_variant_loses_lowercase_value :
+    toLower [70, 111, 111, 32, 66, 97, 114] ∈ addedKeys [70, 111, 111, 32, 66, 97, 114] ∧
+    toLower [70, 111, 111, 32, 66, 97, 114] ∉ (addedKeysInPlace [70, 111, 111, 32, 66, 97, 114]).1 ∧
+    (addedKeysInPlace [70, 111, 111, 32, 66, 97, 114]).2 = [98, 97, 114, 32, 98, 97, 114] := by decide
+
+/-- C03.4 the dictionary path (the predicate once per dictionary word, then all records pointing to the word) selects
+exactly the records the per-record path selects, for every dictionary block, record count and predicate -/
+theorem dictSearch_eq_perRecord (f : Bytes → Bool) (d : DictRd) (recCount : Nat) :
+    dictSearch f d recCount = perRecordSearch f d recCount := by
+  unfold dictSearch perRecordSearch
+  rw [dictLoop_eq, perRecFrom_eq]
+  apply mapIdxFrom_replicate_congr
+  intro j; simp
+
+/-- C03.4 for match filters: with at least one match word the two paths agree -/
+theorem dictMatch_eq_perRecordMatch (mf : MatchFilter) (ci : Bool) (d : DictRd) (recCount : Nat) (h : mf.words ≠ []) :
+    dictMatch mf ci d recCount = perRecordMatch mf ci d recCount := by
+  unfold dictMatch perRecordMatch
+  have : mf.words.isEmpty = false := by cases hw : mf.words <;> simp_all
+  simp only [this, Bool.false_eq_true, if_false]
+  exact dictSearch_eq_perRecord _ d recCount
+
+/-- … and WITHOUT match words they do not: `ApplySearchToMatchFilterDictCsg` returns before the loop (nothing
+selected) while `ApplySearchToMatchFilterRawCsg` answers true for every record -/
+theorem dictMatch_no_words_counterexample :
+    ¬ (∀ (mf : MatchFilter) (ci : Bool) (d : DictRd) (recCount : Nat),
+        dictMatch mf ci d recCount = perRecordMatch mf ci d recCount) := by
+  intro h
+  have := h { wordFilter [] with words := [] } false { words := [[0]], recToWord := [0], badRec := false } 1
+  revert this; decide
+
+/-- the guard of `dictMatch_eq_perRecordMatch` is satisfiable and the search is not vacuous: "foo" over the dictionary
+{"foo x" ↦ records 0 and 2, "bar" ↦ record 1} -/
+example : dictMatch (wordFilter [102, 111, 111]) false
+    { words := [[SigModel.Tlv.tStr, 5, 0, 102, 111, 111, 32, 120], [SigModel.Tlv.tStr, 3, 0, 98, 97, 114]],
+      recToWord := [0, 1, 0], badRec := false } 3 = [true, false, true] := by decide
 
 end SigModel.Props.C03
